@@ -62,13 +62,16 @@ macro_rules! query_impl { ($ver:ident, $client:path, $mkreq:expr, $mreq:path, $m
 
 pub fn run(stim: &Value, rec: &Rec) {
     let files: Vec<FileDescriptorProto> = stim["files"].as_array().cloned().unwrap_or_default().iter().map(file_of).collect();
-    let mut fds = FileDescriptorSet { file: files.clone() };
-    if stim["dup"].as_bool().unwrap_or(false) { if let Some(f) = files.first() { fds.file.push(f.clone()); } }
-    let encoded = fds.encode_to_vec();
+    // registration plan: "sets" lists, per registered descriptor set, the indices of the files it contains
+    let plan: Vec<Vec<usize>> = stim["sets"].as_array().map(|a| a.iter().map(|s| s.as_array().cloned().unwrap_or_default().iter().map(|i| i.as_u64().unwrap() as usize).collect()).collect())
+        .unwrap_or_else(|| vec![(0..files.len()).collect()]);
+    let sets: Vec<FileDescriptorSet> = plan.iter().map(|idx| FileDescriptorSet { file: idx.iter().map(|i| files[*i].clone()).collect() }).collect();
+    let encoded: Vec<Vec<u8>> = sets.iter().map(|s| s.encode_to_vec()).collect();
     let mk = || {
         let mut b = tonic_reflection::server::Builder::configure().include_reflection_service(stim["include_reflection"].as_bool().unwrap_or(true));
-        if stim["encoded"].as_bool().unwrap_or(false) { b = b.register_encoded_file_descriptor_set(&encoded); } else { b = b.register_file_descriptor_set(fds.clone()); }
-        if stim["dup"].as_bool().unwrap_or(false) { b = b.register_file_descriptor_set(fds.clone()); }
+        for (i, set) in sets.iter().enumerate() {
+            if stim["encoded"].as_bool().unwrap_or(false) { b = b.register_encoded_file_descriptor_set(&encoded[i]); } else { b = b.register_file_descriptor_set(set.clone()); }
+        }
         for n in stim["chosen"].as_array().cloned().unwrap_or_default() { b = b.with_service_name(n.as_str().unwrap_or("")); }
         b
     };
